@@ -37,6 +37,21 @@ pub fn networks() -> Vec<(String, Network)> {
         }
         v.push((name.to_string(), build_topology(&t, true, SetStyle::Single)));
     }
+    // line of 3 whose recorded elevations DISAGREE at the junctions (+2 m step into link 2, -3.5 m step into link 3):
+    // valid for network validation; the path must carry the walked (accumulated) elevation
+    {
+        let lens = vec![1000.0, 150.0, 1000.0];
+        let mut t = line_topology(&lens, 20.0);
+        let mut e = 100.0;
+        for (i, f) in t.iter_mut().enumerate() {
+            let start = e + [0.0, 2.0, -3.5][i];
+            let (pts, end) = elev_pattern([3u8, 2, 4][i], f.length_m, start);
+            f.elevs = pts;
+            e = end;
+            f.headings = heading_pattern([2u8, 0, 3][i], f.length_m);
+        }
+        v.push(("line3-step".to_string(), build_topology(&t, true, SetStyle::Single)));
+    }
     // siding: A -> [B | C] -> D with continuous elevations (B and C have the same net change)
     {
         let mut t = siding_topology(1000.0, 150.0, 150.0, 1000.0, 20.0);
@@ -206,13 +221,23 @@ pub fn evaluate(net: &Network, tp: &TrainParams, c: &Case, checks: &mut u64) -> 
     let mut cum = 0.0;
     let one_degree = 1.745_329_251_994_329_5e-2 / 30.48;
     let (c0, c1, c2) = (tp.curve_coeff_0.value, tp.curve_coeff_1.value, tp.curve_coeff_2.value);
+    // walking = accumulating the differences inside each link: where the recorded elevations of two consecutive links
+    // disagree at their junction the later link is shifted onto the end of the earlier one (shift 0 when continuous)
+    let mut shift = 0.0;
+    let mut last_y: Option<f64> = None;
     for (k, &i) in c.seq.iter().enumerate() {
         let l = &links[i];
+        if let (Some(ly), Some(first)) = (last_y, l.elevs.first()) {
+            shift = ly - first.elev.value;
+        }
         for (j, e) in l.elevs.iter().enumerate() {
             if k > 0 && j == 0 {
-                continue; // shared with the previous link's last point (elevations are continuous in the catalogue)
+                continue; // the previous link's last point stands for the junction
             }
-            eref.push((base[k] + e.offset.value, e.elev.value));
+            eref.push((base[k] + e.offset.value, e.elev.value + shift));
+        }
+        if let Some(e) = l.elevs.last() {
+            last_y = Some(e.elev.value + shift);
         }
         if l.headings.is_empty() {
             cref.push((base[k], cum, 0.0));
@@ -401,7 +426,7 @@ impl Prop for C06 {
     }
     fn assumptions(&self) -> Vec<String> {
         vec![
-            "elevations are continuous across connected links in the generated networks (the path accumulates elevation differences)".into(),
+            "the reference elevation accumulates the differences inside each link (walking); one catalogue network has recorded elevations that disagree at both junctions".into(),
             "link indices outside the network are not generated (not a route of the network)".into(),
             "reference curvature = minimal absolute angular difference / length, through the documented three-coefficient formula".into(),
         ]
